@@ -21,9 +21,9 @@ META = {
 }
 NS = 'Scalibr.Detector.'
 THEOREMS = [NS + t for t in [
-    'C20_once_partial', 'C20_once_prefix', 'C20_status_partial', 'C20_validate_spec', 'C20_tagged_partial', 'C20_tagged_shared_pointer', 'C20_inconsistent_partial',
+    'C20_once_partial', 'C20_entry_live', 'C20_cancelled_at_entry', 'C20_once_prefix', 'C20_status_partial', 'C20_validate_spec', 'C20_tagged_partial', 'C20_tagged_shared_pointer', 'C20_inconsistent_partial',
     'C20_nil_finding_partial', 'C20_error_iff_partial', 'C20_run_no_nil_partial', 'C20_index_partial', 'C20_scan_status_partial', 'C20_tagged_scan_partial',
-    'C20_status_scan_partial', 'C20_emitted_consistent', 'C20_inconsistent_scan_partial', 'C20_extractor_findings_validated', 'C20_no_sort_panic',
+    'C20_status_scan_partial', 'C20_emitted_consistent', 'C20_inconsistent_scan_partial', 'C20_extractor_findings_validated_witness', 'C20_no_sort_panic',
     'consistentB_iff']] + ['Scalibr.Index.' + t for t in ['new_getSpecific', 'new_getAllOfType', 'new_getAll', 'new_has', 'new_only']]
 
 
@@ -37,7 +37,7 @@ ORDER_THEOREMS = [NS + t for t in ['C08_cmp_findings', 'C08_cmp_findings_fields'
 # C10, clause "once cancelled … runs no further plugin, reporting failure whenever work remained": Properties/C10Plugins.lean
 PHASES_MODULE = 'Scalibr.Properties.C10Plugins'
 PHASES_THEOREMS = ['Scalibr.Phases.' + t for t in ['C10_plugins_one_loop', 'C10_plugins_stop', 'C10_plugins_failed_iff', 'C10_plugins_failed_without_work_left', 'C10_plugins_fail_if_work_remained',
-                                                    'C10_plugins_detector_models_agree',
+                                                    'C10_plugins_detector_models_agree', 'C10_plugins_detector_entry', 'C10_plugins_detectors_skipped', 'C10_plugins_nocancel_status',
                                                     'C10_plugins_none_after_cancel', 'C10_plugins_failure_means_cancelled', 'C10_plugins_nocancel']]
 
 
@@ -79,6 +79,22 @@ def details(ps, fi, fm, case=''):
     return (' — ' + ' | '.join(out)) if out else ''
 
 
+def emitted_consistent(findset):
+    """whatever a scan emits must be consistent: every finding has an advisory with an ID, equal IDs carry equal bodies
+    (judged on the implementation's own output: <ptr>@<pub>.<hexref>.<body>@…)"""
+    seen = {}
+    if findset in ('-', '', None):
+        return True
+    for f in findset.split(','):
+        parts = f.split('@')
+        if len(parts) < 2 or parts[1].count('.') != 2:
+            return False                 # 'n' (no advisory), 'i<body>' (no ID), 'z' (nil)
+        pub, ref, body = parts[1].split('.')
+        if seen.setdefault((pub, ref), body) != body:
+            return False
+    return True
+
+
 def phase_problems(case, fi, fm):
     """`phases` cases: the implementation's started-plugin log and overall status against the specification"""
     if 'sstarted' not in fm:
@@ -93,6 +109,8 @@ def phase_problems(case, fi, fm):
         out.append('ph-notfailed')
     if fm.get('smustfail') == '0' and fi.get('st') != 'ok':
         out.append('ph-failed')
+    if fm.get('spst', '?') != '?' and fi.get('pst') != fm.get('spst'):
+        out.append('ph-status')
     return out
 
 
@@ -111,9 +129,14 @@ def problems(case, fi, fm):
         out.append('index')
     # the property's sentence is about FINDINGS: the scan must fail when ANY two findings (extractor-emitted ones included)
     # disagree on an advisory or any finding lacks one
-    want_st = 'ok' if fm.get('consall', fm.get('cons')) == '1' else 'failed'
-    if fi.get('st') != want_st:
+    if fi.get('st') != fm.get('sst'):          # sst = ok iff consistentB (allFindings): Spec
         out.append('status')
+    elif fi.get('st') == 'failed' and fi.get('err') not in fm.get('serrs', '-').split(','):
+        out.append('reason')            # the failure reason names a kind of inconsistency that is not present
+    if fi.get('plugset') != fm.get('splugset'):
+        out.append('statusset')
+    if not emitted_consistent(fi.get('findset', '-')):
+        out.append('emitted-inconsistent')
     dets = ','.join(x for x in fi.get('plug', '-').split(',') if x.startswith('det')) or '-'
     if dets != fm.get('sdet'):
         out.append('detstatus')
@@ -134,6 +157,10 @@ def problems(case, fi, fm):
 
 
 TEXT = {
+    'reason': 'the failure reason reported by the scan names a kind of inconsistency that none of its findings has',
+    'statusset': 'the plugin statuses are not the extractors\' statuses plus one per detector (failed iff its Scan returned an error)',
+    'emitted-inconsistent': 'the scan EMITTED inconsistent findings (two with one advisory ID and different content, or one without advisory / ID)',
+    'ph-status': 'without any cancellation the result must carry one status per standalone extractor and detector, failed iff the plugin returned an error',
     'ph-extra': 'a plugin was STARTED after the context had been cancelled (started-plugin log is longer than the specification allows)',
     'ph-started': 'the started-plugin log differs from "everything up to and including the cancelling iteration, in schedule order"',
     'ph-notfailed': 'plugins of the schedule were never started, yet the scan does not report failure',
@@ -156,7 +183,10 @@ def run(ctx):
                    'advisory content is modelled as one number, equal iff the advisories are deeply equal: the harness derives it from a canonical rendering (encoding/json) of the WHOLE value, '
                    'not from particular fields (no NaN CVSS scores)',
                    'harness/cmd/c20gen + lean/Drivers/C20.lean line protocol', 'Lean compiler for the driver executable']
-    ctx.assumptions = ['theorems about tagging/status/failure assume no detector cancels the scan\'s context (cancellation skips the remaining detectors by design; C20_once_prefix covers it)',
+    ctx.assumptions = ['ENTRY CONDITION of every C20 theorem and of the `scan` cases: detector.Run is entered with a live context after filesystem.Run / standalone.Run returned no error '
+                       '(C20_entry_live); entered with a cancelled context no detector runs (C20_cancelled_at_entry); which entry state Scan hands over, incl. "last standalone extractor cancels", '
+                       'is C10_plugins_detector_entry / C10_plugins_detectors_skipped, exercised by the `phases` cases',
+                       'theorems about tagging/status/failure assume no detector cancels the scan\'s context (cancellation skips the remaining detectors by design; C20_once_prefix covers it)',
                        'findings carried by an extractor\'s inventory (no built-in extractor emits any) are not tagged; they are validated together with the detectors\' findings (fix 89f87523)',
                        'the order of packages handed to packageindex.New is the walk order (roots, files by name, extractors by configuration order): input of this model, subject of C01/C08',
                        'Extractor.ToPURL does not panic (C14)']
@@ -239,4 +269,4 @@ def run_plugin_phases(ctx):
     of 6 schedule shapes (>= 2 standalone extractors and >= 2 detectors among them) x return values, plus random schedules.
     Oracle: started-plugin log = specification, failure whenever a plugin was left out. Theorems: PHASES_THEOREMS in PHASES_MODULE
     (Properties/C10Plugins.lean)."""
-    return _borrowed(ctx, 'phases', PHASES_MODULE, ('ph-extra', 'ph-started', 'ph-notfailed', 'ph-failed', 'panic'), {'quick': 3000, 'thorough': 30000}[ctx.tier])
+    return _borrowed(ctx, 'phases', PHASES_MODULE, ('ph-extra', 'ph-started', 'ph-notfailed', 'ph-failed', 'ph-status', 'panic'), {'quick': 3000, 'thorough': 30000}[ctx.tier])
